@@ -203,7 +203,15 @@ def run(tier, seed):
                 ph0[idx] = math.remainder(total - float(sum(ph0)), 2 * math.pi)
                 style += "+total=%.2f" % total
                 ctx.count("complex-total-phase:%.2f" % total)
-            ctx.count("complex-style:" + style.split("+total")[0])
+            elif rng.random() < 0.25:
+                # the two OUTER phases nearly (not exactly) cancel, or nearly add up to a quarter / half turn: the end
+                # coefficients of the Laurent pair are then genuine but tiny (1e-7 .. 1e-3)
+                base = float(rng.choice([0.0, 0.0, math.pi, math.pi / 2, -math.pi / 2]))
+                dlt = float(rng.choice([-1, 1])) * 10.0 ** float(rng.uniform(-7, -3))
+                ph0[-1] = math.remainder(base - float(ph0[0]) + dlt, 2 * math.pi)
+                style += "+outer-sum"
+                ctx.count("complex-outer-phase-sum:near-%.2f" % base)
+            ctx.count("complex-style:" + style.split("+total")[0].split("+outer-sum")[0])
             ph0 = [float(x) for x in ph0]
             if d in EXACT_CORNERS and EXACT_CORNERS[d] and rng.random() < 0.5:
                 # corners whose coefficient vector is known in closed form and handed over with its exact zeros: e^{ia} x^d
